@@ -394,6 +394,13 @@ func init() {
 	regInv("github.com/cosmos/cosmos-sdk/codec.BinaryCodec.MustUnmarshal", func(p *preCall) Val { return p.fr.unmarshal(p, false) })
 	regInv("github.com/cosmos/cosmos-sdk/codec.BinaryCodec.Unmarshal", func(p *preCall) Val { return p.fr.unmarshal(p, true) })
 
+	// ---- gogoproto enum names: a deterministic function of the (never reassigned) name table and the value
+	reg("github.com/cosmos/gogoproto/proto.EnumName", func(p *preCall) Val {
+		fc := p.fc()
+		fc.B.DeclFun("enum_name", []string{p.args[0].S, "Int"}, "String")
+		return strVal("(enum_name " + p.args[0].T + " " + p.args[1].T + ")")
+	})
+
 	// ---- sdk misc
 	reg("github.com/cosmos/cosmos-sdk/types.AccAddressFromBech32", func(p *preCall) Val {
 		fc := p.fc()
